@@ -134,8 +134,7 @@ META["C19"] = dict(
         "operations are atomic scheduling steps (the back ends have no internal seam): a missing lock is invisible to the deterministic part; that clause rests on the auxiliary -race stress of the thorough tier (bin/racestress)",
         "porcupine Unknown (timeout) is counted as inconclusive and never reported"])
 
-HOOK_COMMITS = ["54f90f1 (H2: net/splitlistener.go scheduling points + net/verif_hook_{on,off}.go)",
-                "c914c74 (H1: protocol/dialer.go SimDial seam + protocol/verif_hook_{on,off}.go)"]
+HOOK_COMMITS = ["54f90f1", "c914c74", "9c93c69"]
 
 NOT_APPLICABLE = {}
 NOT_APPLICABLE["C20"] = ("pure function of its arguments (BreakIntoNextProtos/CombineFromNextProtos): no clock, schedule, I/O, fault or second party for a simulator to control; "
